@@ -239,5 +239,5 @@ def arc_case(draw):
 
 
 SUBCHECKS = {
-    "arc": Sub("arc", check_arc, strategy=lambda ctx: arc_case(), examples={"quick": 5000, "thorough": 60000}),
+    "arc": Sub("arc", check_arc, strategy=lambda ctx: arc_case(), examples={"quick": 5000, "thorough": 25000}),
 }
